@@ -24,6 +24,8 @@ INV = {v: k for k, v in NAMES.items()}
 KEYS = ['N', 'S1', 'S2', 'A0', 'A1', 'A2', 'B']   # None, 'a', 'b', 'x_0', 'x_1', 'x_2', non-string
 DISTS = [('U', 0, 1), ('U', 2, 5), ('D', 1), ('F', 3), ('L', 'S1'), ('L', 'S2'), ('L', 'A1'), ('L', 'S9'), ('X',)]
 ALPHA = list(itertools.product(KEYS, DISTS))
+# random streams also fix parameters to exactly zero (a falsy value)
+ALPHA_X = ALPHA + list(itertools.product(KEYS, [('F', 0)]))
 _NORM = None
 
 
@@ -424,12 +426,12 @@ def main(run: Run, audit):
     extra = []
     if tier == 'thorough':
         for _ in range(1500000):
-            extra.append([rnd.choice(ALPHA) for _ in range(4)])
+            extra.append([rnd.choice(ALPHA_X) for _ in range(4)])
     n_rand = 3000 if tier == 'quick' else 200000
     for _ in range(n_rand):
-        extra.append([rnd.choice(ALPHA) for _ in range(rnd.choice([5, 6, 8, 12]))])
+        extra.append([rnd.choice(ALPHA_X) for _ in range(rnd.choice([5, 6, 8, 12]))])
     # mostly-valid stream: bias towards accepted declarations so that long priors with chains arise
-    valid_alpha = [a for a in ALPHA if a[0] in ('N', 'S1', 'S2', 'A2') and a[1][0] in ('U', 'D', 'F', 'L')]
+    valid_alpha = [a for a in ALPHA_X if a[0] in ('N', 'S1', 'S2', 'A2') and a[1][0] in ('U', 'D', 'F', 'L')]
     for _ in range(n_rand):
         extra.append([rnd.choice(valid_alpha) for _ in range(rnd.choice([4, 6, 9]))])
     allseqs = seqs + extra
